@@ -98,6 +98,8 @@ def run(ck):
     ck.coq_build(["props/C15.vo", "extract/C15_extract.vo"])
     ck.print_assumptions(["DSP.C15"], ["DSP.C15." + t for t in THEOREMS])
     ck.source_tie("registry")
+    ck.source_tie("regcmds")
+    ck.source_tie("regfn")
     ck.hygiene()
     ck.ocaml_build()
     ck.harness_build(["c15"])
